@@ -12,6 +12,7 @@ isolation of clones and rejection of mutations by frozen trees.
 """
 import bisect
 import copy
+import gc
 import itertools
 
 import lib
@@ -37,6 +38,12 @@ ITOPEN, ITNEXT = 18, 19
 NMIN, NMAX = 28, 29  # tree.root.minimum() / maximum()
 # MutableMapping / MutableSet mixin methods
 DPOP, DPOPITEM, DCLEAR, DSETDEFAULT, DUPDATE, SREMOVE, SPOP, SCLEAR = 40, 41, 42, 43, 44, 45, 46, 47
+# [DROP, tree]: the program drops its last reference to the tree handle (the runner forgets it and
+# every cursor / iterator on it, then gc.collect()); the nodes the handle built stay alive inside
+# its clones.  The model keeps the index (nothing observable happens); histories never use a dropped
+# tree again.  What this exercises: the identity of a creator must never be reused while nodes
+# tagged with it are alive (the model's creator tags are fresh by construction).
+DROP = 48
 MIXIN = {DPOP, DPOPITEM, DCLEAR, DSETDEFAULT, DUPDATE, SREMOVE, SPOP, SCLEAR}
 MUTATING = {INS, DEL, DELX, DSET, DDEL, SADD, SDISC} | MIXIN
 
@@ -119,11 +126,17 @@ class ImplWorld:
         self.bt = bt
         self.trees = []
         self.cursors = []
+        self.cursor_tree = []  # tree index of every cursor / iterator
+        self.creators = []  # the creator token of every tree ever made (not the tree: a dropped handle must be collectable)
         self.table = {}
+
+    def add_tree(self, tr):
+        self.trees.append(tr)
+        self.creators.append(tr.creator)
 
     def store_dump(self, tr):
         """preorder [serial, creator's tree index, leaf, flat elts, kid serials] of the real nodes"""
-        cmap = {id(t.creator): i for i, t in enumerate(self.trees)}
+        cmap = {id(c): i for i, c in enumerate(self.creators)}
         out = []
 
         def visit(n):
@@ -149,13 +162,13 @@ class ImplWorld:
         c = op[0]
         try:
             if c == NEW:
-                self.trees.append(bt.BTreeDict(t=op[1], in_order=bool(op[2])))
+                self.add_tree(bt.BTreeDict(t=op[1], in_order=bool(op[2])))
                 return None
             if c == NEWSET:
-                self.trees.append(bt.BTreeSet(t=op[1], in_order=bool(op[2])))
+                self.add_tree(bt.BTreeSet(t=op[1], in_order=bool(op[2])))
                 return None
             if c == ITNEXT:
-                if not 0 <= op[1] < len(self.cursors):
+                if not 0 <= op[1] < len(self.cursors) or self.cursors[op[1]] is None:
                     return Err(999)
                 try:
                     x = next(self.cursors[op[1]])
@@ -163,7 +176,7 @@ class ImplWorld:
                     return None
                 return list(x) if isinstance(x, tuple) else x
             if c in (SEEK, FIRST, LAST, NEXT, PREV):
-                if not 0 <= op[1] < len(self.cursors):
+                if not 0 <= op[1] < len(self.cursors) or self.cursors[op[1]] is None:
                     return Err(999)
                 cur = self.cursors[op[1]]
                 if c == SEEK:
@@ -175,9 +188,20 @@ class ImplWorld:
                 if c == NEXT:
                     return elt_obs(cur.next())
                 return elt_obs(cur.prev())
-            if not 0 <= op[1] < len(self.trees):
+            if not 0 <= op[1] < len(self.trees) or self.trees[op[1]] is None:
                 return Err(999)
             tr = self.trees[op[1]]
+            if c == DROP:
+                cyc = False
+                for j, ti in enumerate(self.cursor_tree):
+                    if ti == op[1] and self.cursors[j] is not None:
+                        self.cursors[j] = None
+                        cyc = True  # registered cursors and their tree reference each other
+                self.trees[op[1]] = None
+                del tr
+                if cyc:
+                    gc.collect()
+                return None
             if c == INS:
                 return elt_obs(tr.insert_element(self.elt(op[2], op[3]), bool(op[4])))
             if c == DEL:
@@ -195,20 +219,22 @@ class ImplWorld:
             if c == FREEZE:
                 return tr.make_immutable()
             if c == CLONE:
-                self.trees.append(tr.__class__(original=tr, in_order=bool(op[2])))
+                self.add_tree(tr.__class__(original=tr, in_order=bool(op[2])))
                 return None
             if c == COPY:
-                self.trees.append(copy.copy(tr))
+                self.add_tree(copy.copy(tr))
                 return None
             if c == CUR:
                 cur = tr.cursor()
                 tr.register_cursor(cur)
                 self.cursors.append(cur)
+                self.cursor_tree.append(op[1])
                 return None
             if c == ITOPEN:
                 kind = op[2]
                 it = iter(tr) if kind == 0 else iter(tr.keys()) if kind == 1 else iter(tr.items()) if kind == 2 else iter(tr.values())
                 self.cursors.append(it)
+                self.cursor_tree.append(op[1])
                 return None
             if c == DUMP:
                 return [[dump_node(tr.root), 1], self.store_dump(tr), 1]
@@ -276,6 +302,7 @@ class RefTree:
         self.d = dict(d or {})  # key -> value id
         self.frozen = False
         self.is_set = is_set
+        self.dropped = False
 
     def keys(self):
         return sorted(self.d)
@@ -346,6 +373,9 @@ class RefWorld:
                 return None
             return cur.next() if c == NEXT else cur.prev()
         tr = self.trees[op[1]]
+        if c == DROP:
+            tr.dropped = True
+            return None
         if c in MIXIN:
             return self.mixin(tr, op)
         if c in MUTATING and tr.frozen:
@@ -488,6 +518,8 @@ def structure_problems(root, t, creators_ok=None):
 def deep_check(iw, rw, si, op, full):
     c = op[0]
     for ti, (tr, rt) in enumerate(zip(iw.trees, rw.trees)):
+        if tr is None:  # dropped handle
+            continue
         acc = []
         tr.visit_in_order(lambda e: acc.append(elt_obs(e)))
         want = [[k, rt.d[k]] for k in rt.keys()]
@@ -560,7 +592,7 @@ def check_history(case, deep_every=1):
                 F.append({"kind": "hist:step", "what": what, "step": si, "op": op, "impl": got, "ref": exp, "sig": what})
                 return F
         rejected = c in MUTATING and isinstance(exp, Err) and exp.code == E_IMMUTABLE
-        deep = (c in MUTATING or c in (CLONE, COPY, FREEZE, NEW, NEWSET)) and (si % deep_every == 0 or si == len(ops) - 1)
+        deep = (c in MUTATING or c in (CLONE, COPY, FREEZE, NEW, NEWSET, DROP)) and (si % deep_every == 0 or si == len(ops) - 1)
         if deep or rejected:
             # after a mutation REJECTED by a frozen tree nothing at all may have changed: re-read every
             # tree completely (items, len, lookup of every key, cursor walk, node structure)
@@ -1206,9 +1238,149 @@ def iter_cases(ctx):
         yield "iter-mutate", [0] + sbuild + [[ITOPEN, 0, 0]] + sum(([nx, [SDISC, 0, 10 * k], [SADD, 0, 10 * k + 15]] for k in range(3 * t)), []) + [nx] * 5 + [[ITER, 0]]
 
 
+def drop_cases(ctx):
+    """the life cycle of pruned versions: A is built and frozen, B = clone(A), the handle A is DROPPED
+    (its nodes live on inside B), B is frozen, several clones C_i of B are made right after the drop and
+    each is mutated along its own path (replace / insert / delete through the shared nodes); B and every
+    C_j are re-read after every mutation.  Many rounds per history: whatever the allocator does with the
+    freed handle (a later clone may get its address), a clone must never mistake nodes of the dropped
+    tree for its own."""
+    rng = ctx.rng
+    v = [50000]
+
+    def fresh():
+        v[0] += 1
+        return v[0]
+
+    plans = [(3, 14, 10, 4), (3, 5, 14, 4), (4, 20, 8, 4), (5, 9, 10, 3), (3, 40, 5, 5), (127, 300, 2, 3)]
+    reps = ctx.n(2, 8)
+    for t, nkeys, rounds, nclones in plans:
+        for rep in range(reps):
+            for set_kind in ((False, True) if rep == 0 else (False,)):
+                ops = []
+                nt = 0  # next tree index
+                for rd in range(rounds):
+                    keys = [10 * k for k in range(nkeys)]
+                    a = nt
+                    nt += 1
+                    ops.append([NEWSET if set_kind else NEW, t, rd % 2])
+                    order = keys if rd % 3 else list(reversed(keys))
+                    for k in order:
+                        ops.append([SADD, a, k] if set_kind else [INS, a, k, fresh(), rd % 2])
+                    ops.append([FREEZE, a])
+                    b = nt
+                    nt += 1
+                    ops.append([CLONE, a, 0] if rd % 2 else [COPY, a])
+                    # optionally grow B a little before it is frozen (its own nodes + A's nodes)
+                    if rep % 2:
+                        for k in rng.sample(keys, min(3, len(keys))):
+                            ops.append([SADD, b, k + 5] if set_kind else [INS, b, k + 5, fresh(), 0])
+                    ops.append([DROP, a])
+                    ops.append([FREEZE, b])
+                    cs = []
+                    for i in range(nclones):
+                        cs.append(nt)
+                        nt += 1
+                        ops.append([CLONE, b, i % 2] if (i + rd) % 2 else [COPY, b])
+                    for i, ci in enumerate(cs):
+                        ks = rng.sample(keys, min(len(keys), 4))
+                        for j, k in enumerate(ks):
+                            m = (i + j + rep) % 4
+                            if set_kind:
+                                ops.append([SDISC, ci, k] if m % 2 else [SADD, ci, k + 1 + i])
+                            elif m == 0:
+                                ops.append([INS, ci, k, fresh(), 0])  # replace in a shared node
+                            elif m == 1:
+                                ops.append([DEL, ci, k])
+                            elif m == 2:
+                                ops.append([DSET, ci, k + 1 + i, fresh()])
+                            else:
+                                ops.append([DDEL, ci, k])
+                        ops.append([LEN, b])
+                    if nkeys <= 40:
+                        ops.append([ITEMS, b])
+                        ops.append([ITEMS, cs[0]])
+                    if rd == rounds - 1 and nkeys <= 40:
+                        ops.append([DUMP, b])
+                        ops.append([DUMP, cs[-1]])
+                    # the clones of this round and B are dropped too: the next round starts from a clean slate
+                    for ci in cs[1:]:
+                        ops.append([DROP, ci])
+                    ops.append([DROP, b])
+                ctx.count("drop-chain")
+                yield "drop-chain", [0] + ops
+    for t, ks, n in ((3, 30, 300), (3, 120, 600), (4, 60, 400), (5, 100, 400), (127, 500, 900)):
+        for j in range(ctx.n(3, 12)):
+            ctx.count("drop-random")
+            yield "drop-random", drop_random(rng, t, ks, n, set_kind=(j % 4 == 3))
+
+
+def drop_random(rng, t, keyspace, nops, set_kind=False):
+    """random generations of versions: live mutable clones are mutated at random; every now and then one
+    of them is frozen and becomes the base of new clones while older handles (bases and clones) are
+    dropped - nodes of many dropped generations stay shared between the live trees"""
+    ops = [[NEWSET if set_kind else NEW, t, 0]]
+    keys = {0: {}}  # live tree index -> {key: value id}
+    frozen = set()
+    nt = 1
+    vid = [70000]
+
+    def put(ti, k):
+        vid[0] += 1
+        if set_kind:
+            ops.append([SADD, ti, k])
+            keys[ti][k] = 0
+        else:
+            ops.append([INS, ti, k, vid[0], int(rng.random() < 0.3)] if rng.random() < 0.7 else [DSET, ti, k, vid[0]])
+            keys[ti][k] = vid[0]
+
+    for k in rng.sample(range(keyspace), min(keyspace, 3 * t + rng.randrange(4 * t))):
+        put(0, k)
+    while len(ops) < nops:
+        live = [i for i in keys if i not in frozen]
+        r = rng.random()
+        if live and r < 0.8:
+            ti = rng.choice(live)
+            d = keys[ti]
+            if d and rng.random() < 0.45:
+                k = rng.choice(sorted(d)) if rng.random() < 0.85 else rng.randrange(keyspace)
+                ops.append([SDISC, ti, k] if set_kind else ([DEL, ti, k] if rng.random() < 0.6 else [DPOP, ti, k] if k in d else [DEL, ti, k]))
+                d.pop(k, None)
+            else:
+                put(ti, rng.choice(sorted(d)) if d and rng.random() < 0.3 else rng.randrange(keyspace))
+        elif live:
+            # a new generation: freeze one live tree, drop some older handles, clone right away
+            base = rng.choice(live)
+            ops.append([FREEZE, base])
+            frozen.add(base)
+            victims = [i for i in keys if i != base and rng.random() < 0.7]
+            for i in victims:
+                ops.append([DROP, i])
+                del keys[i]
+                frozen.discard(i)
+            for _ in range(rng.choice([1, 2, 3, 4])):
+                ops.append([COPY, base] if rng.random() < 0.4 else [CLONE, base, int(rng.random() < 0.3)])
+                keys[nt] = dict(keys[base])
+                nt += 1
+        else:
+            base = rng.choice(sorted(keys))
+            ops.append([CLONE, base, 0])
+            keys[nt] = dict(keys[base])
+            nt += 1
+        if rng.random() < 0.03:
+            ti = rng.choice(sorted(keys))
+            ops.append([LEN, ti] if len(keys[ti]) > 300 else [ITER if set_kind else ITEMS, ti])
+    for ti in sorted(keys):
+        if len(keys[ti]) <= 300:
+            ops.append([DUMP, ti])
+        ops.append([LEN, ti])
+    return [0] + ops
+
+
 def cases(ctx):
     rng = ctx.rng
     hist = []
+    yield from drop_cases(ctx)
     yield from iter_cases(ctx)
     yield from frozen_cases(ctx)
     yield from targeted_cases(ctx)
